@@ -283,8 +283,8 @@ def main():
         vals = W.values(scr, thorough)
         # ---- jaqmon phase workload
         reqs = list(W.native_requests(callables, vals, run.seed, thorough))
-        reqs += list(W.pipeline_requests(callables, vals, rng, run.size(600, 20000)))
-        reqs += list(W.doc_requests(scr, rng, run.size(2100, 70000)))
+        reqs += list(W.pipeline_requests(callables, vals, rng, run.size(600, 30000)))
+        reqs += list(W.doc_requests(scr, rng, run.size(2100, 120000)))
         str_inputs = [enc(v) for _c, v in vals[:6]] + [None, enc([S("/etc/passwd")])]
         reqs.append({"prog": ".", "cases": [{"input": x} for x in str_inputs], "meta": [("ordinary:identity", "input")] * len(str_inputs)})
         for i, p in enumerate(W.ORDINARY):
@@ -324,6 +324,7 @@ def main():
         pending_confirm = []
         inplace_seen = {}
         cli_rc = {}
+        cli_nonzero = {}
         for kind, r in par.pmap(work, tasks, run.jobs):
             if kind == "phase":
                 if r["broken"]:
@@ -371,6 +372,8 @@ def main():
             lines += r["lines"]
             unparsed += r["unparsed"]
             cli_rc[str(r["rc"])] = cli_rc.get(str(r["rc"]), 0) + 1
+            if r["rc"] != 0 and len(cli_nonzero.setdefault(str(r["rc"]), [])) < 6:
+                cli_nonzero[str(r["rc"])].append("%s: %s" % (r["name"], r["stderr"].strip()[-100:]))
             if r["rc"] is None:
                 run.inconc("cli-timeout")
                 run.notes.append("cli timeout: %s" % " ".join(r["case"]["argv"])[:160])
@@ -428,13 +431,13 @@ def main():
             "samples": samples.items,
             "phases_observed": phases, "phases_requested": cases_sent, "control_phases": control_phases,
             "requests": requests, "requests_not_compiling": compile_errors, "phase_outcomes": ends,
-            "cli_runs": cli_runs, "cli_exit_codes": cli_rc,
+            "cli_runs": cli_runs, "cli_exit_codes": cli_rc, "cli_nonzero_exit_examples": cli_nonzero,
             "natives_and_definitions": len(callables), "cli_only_names": sorted(cli_only), "manual_examples": len(manual),
             "argument_values": len(vals), "traced_processes": len(tasks) + len(control_cli_cases(scr)) + 2,
             "syscalls_seen_during_phases": dict(sorted(hist.items(), key=lambda kv: -kv[1])),
             "stat_like_calls_during_phases": statlike,
             "cli_syscalls_after_first_input": dict(sorted(cli_exec_hist.items(), key=lambda kv: -kv[1])),
-            "runtime_noise_learned_from_control": {"jaqmon_phases": sorted(phase_noise), "jaq_binary": sorted(noise)},
+            "runtime_noise_learned_from_control": {"jaqmon_phases": sorted(phase_noise), "jaq_binary": sorted({re.sub(r"^/proc/[0-9]+/", "/proc/self/", x) for x in noise})},
             "in_place_events": inplace_seen, "in_place_temp_leftovers": leftovers,
             "recorder": {"strace": cfg["prefix"], "trace_set": cfg["trace"], "log_lines_parsed": lines,
                          "log_lines_unparsed": unparsed, "marker_syscalls_found": markers, "selftest": st},
@@ -447,7 +450,10 @@ def main():
             "read-only opens under /proc, /sys, /dev and of shared libraries seen in control runs of `.` are the runtime's, not jaq's",
         ], broken=broken)
     finally:
-        shutil.rmtree(scr, ignore_errors=True)
+        if os.environ.get("C06_KEEP"):
+            print("C06_KEEP: scratch kept at " + scr)
+        else:
+            shutil.rmtree(scr, ignore_errors=True)
 
 
 if __name__ == "__main__":
